@@ -47,6 +47,7 @@ func runC13(r *hk.Run) {
 	h2AbortPairs(r, rng, r.Scale(40, 400))
 	h1AbortPairs(r, rng, r.Scale(25, 250))
 	h3AbortPairs(r, rng, r.Scale(25, 250))
+	h1InteractivePairs(r, rng, r.Scale(30, 300))
 }
 
 // ---------- (a) line cases ----------
@@ -482,9 +483,10 @@ type partsObs struct {
 	RespHeaderPre []byte // interim header blocks read before the request body is written (Expect: 100-continue)
 	RespHeader    []byte
 	RespBody      []byte
-	RespEOF       bool // the body reader reported io.EOF (CRLF separator on Output)
-	NoResp        bool // no response body reader was handed to the caller
-	Warm          bool // the warm-up exchange of the run: seen by the client-level dumper and by its own
+	RespEOF       bool      // the body reader reported io.EOF (CRLF separator on Output)
+	NoResp        bool      // no response body reader was handed to the caller
+	Reads         []readObs // manual-read mode: the Reads the caller made (RespBody is their concatenation)
+	Warm          bool      // the warm-up exchange of the run: seen by the client-level dumper and by its own
 	// request-level dumper (level 2), not by the main request's dumper (level 1)
 	After bool // a request without dumper of its own sent after the main one: client level only
 }
